@@ -1,7 +1,7 @@
 (* Property C16 — pool creation charges exact fees; pool parameters are unique and immutable.
    Statements only; proofs in Proofs/PmProofs.v and Proofs/PmChainProofs.v. *)
 From MD.Model Require Import Base Ownable Epoch PoolMath Types PoolManager FarmManager Chain.
-From MD.Proofs Require Import SwapProofs ChainProofs PmProofs PmChainProofs.
+From MD.Proofs Require Import SwapProofs ChainProofs PmProofs PmChainProofs BankProofs TxBalances.
 
 (* what a successful CreatePool has checked, and the only messages it emits: the creation fee to the fee
    collector (when non-zero) and the LP denom creation (which consumes the token-factory fee) — nothing is kept *)
@@ -69,6 +69,19 @@ Proof. exact lp_of_id_inj. Qed.
 Example C16_genesis_lp_inv : lp_inv empty_pm.
 Proof. intros id p H. discriminate. Qed.
 
+(* THE WHOLE TRANSACTION, every bank balance: creating a pool moves the attached funds to the pool manager, out of which
+   exactly the configured creation fee goes to the fee collector and exactly the token-factory fee is destroyed *)
+Theorem C16_creation_transaction_moves_exactly_these_balances : forall w sender funds denoms decimals fees pt oid w',
+  run_tx w sender PM (WPm (PmCreatePool denoms decimals fees pt oid)) funds = Ok w' ->
+  let fee := pm_creation_fee (pm_cfg (w_pm w)) in
+  let fc := pm_fee_collector (pm_cfg (w_pm w)) in
+  forall a d,
+    bal (w_bank w') a d = bal (w_bank w) a d
+      - ind (String.eqb a sender) (camt funds d) + ind (String.eqb a PM) (camt funds d)
+      - ind (String.eqb a PM) (camt [fee] d) + ind (String.eqb a fc) (camt [fee] d)
+      - ind (String.eqb a PM) (camt (w_tf_fee w) d).
+Proof. exact create_pool_tx_balances. Qed.
+
 Print Assumptions C16_create_pool_checks.
 Print Assumptions C16_new_pool.
 Print Assumptions C16_parameters_immutable_and_pools_never_removed.
@@ -76,3 +89,4 @@ Print Assumptions C16_lp_denom_is_function_of_identifier.
 Print Assumptions C16_identifiers_and_lp_denoms_unique.
 Print Assumptions C16_lp_denom_injective.
 Print Assumptions C16_genesis_lp_inv.
+Print Assumptions C16_creation_transaction_moves_exactly_these_balances.
